@@ -205,7 +205,7 @@ fn rename(rng: &mut Rng, n: &Option<std::borrow::Cow<'static, str>>, required: b
 /// one mutation of `s` (tries to keep the schema valid); returns a label
 fn mutate_schema(rng: &mut Rng, s: &mut ScryptoSchema) -> &'static str {
     let n = s.type_kinds.len();
-    if n == 0 {
+    if n == 0 || s.type_metadata.len() != n || s.type_validations.len() != n {
         return "none";
     }
     let wks = well_known_ids();
